@@ -89,3 +89,20 @@ def _(c):
     c.ensures("result == number of nodes in the pre-order of the branch", lambda x: x.r == L.Len(L.pre_post(x.h0)[0](x.a.self)))
     c.loop(1).invariant = lambda x: x.v.i == x.k
     c.loop(1).modifies = ()
+
+
+@contract("nutree.tree.Tree.iterator", props=("C06",))
+def _(c):
+    """`for n in tree` / tree.iterator(method): the root's iterator without the root itself."""
+    c.param("self", "tree").param("method", "enum:pre", "enum:post")
+    c.families = ("plain",)
+    c.result_tag = "pseq"
+    c.pure()
+    c.requires("wf", lambda x: wf0(x))
+
+    def post(x):
+        Pre, _, Post, _ = L.pre_post(x.h0)
+        root = x.h0._root(x.a.self)
+        return L.SeqEq(x.r, Pre(root) if x.a.sv("method").z == "pre" else Post(root))
+
+    c.ensures("yields Pre(root) / Post(root): every node once, the invisible root never", post)
